@@ -3,7 +3,7 @@
 From Coq Require Import List Bool Arith String.
 Import ListNotations.
 From Lime Require Import Hs.Types Hs.Server Hs.Monitor Hs.ServerFacts Hs.MonitorFacts Props.HsCommon.
-From Lime Require Import Hs.Client Hs.ClientEnc Hs.ClientEncFacts Hs.Pipelined.
+From Lime Require Import Hs.Client Hs.ClientEnc Hs.ClientEncFacts Hs.Pipelined Hs.Interop Hs.InteropFacts.
 Open Scope string_scope.
 Open Scope list_scope.
 
@@ -85,3 +85,36 @@ Example C09_pipelined_example :
   ins = [w_new ""; choice; auth 1] /\
   In (AuthCall 1 "plain" (Some 1) "tls") (rr_trace (handle_channel s_repaired conf o ins)).
 Proof. vm_compute. split; [reflexivity|tauto]. Qed.
+
+(* Both ends together (Hs/Interop.v: Models B and C connected the way the connection connects them).  When the
+   client's configuration fits the server's - same kind of transport, selectors that pick offered options the
+   transport can switch to, an authenticator whose answer the server's callbacks accept - there is a joint run in
+   which the server's Established callback runs, the client is handed an established session, both hold the same
+   session id, the client is the node the server registered, and both ends are under the same encryption: the one
+   the client selected from the offer (the initial one where the server does not negotiate). *)
+Theorem C09_both_ends_apply_the_selected_option : forall wire snode sc o cc n enc,
+  fits sc o cc n enc ->
+  exists cins, consistent wire snode sc o cc cins /\ agree snode (ends_of wire snode sc o cc cins) n enc.
+Proof. exact fitting_ends_establish_and_agree. Qed.
+Print Assumptions C09_both_ends_apply_the_selected_option.
+
+(* non-vacuity: a server offering none and tls, a client that prefers tls; and the joint run of the theorem is the
+   one that comes about in time, starting from silence *)
+Example C09_both_ends_example :
+  let sc := {| sc_comp := ["none"]; sc_enc := ["none"; "tls"]; sc_schemes := ["plain"; "guest"]; sc_kind := TTcp true;
+               sc_tls_ok := true; sc_sid := "SID" |} in
+  let o := {| o_auth := fun _ s c _ => if String.eqb s "plain" then ARole else AUnknown; o_reg := fun _ => RNode 5 |} in
+  let cc := {| cc_comp_sel := fun _ => "none"; cc_enc_sel := fun l => if mem "tls" l then "tls" else "none";
+               cc_auth := fun _ _ => ("plain", 1); cc_identity := 1; cc_kind := TTcp true; cc_tls_ok := true |} in
+  fits sc o cc 5 "tls" /\
+  agree 9 (ends_of true 9 sc o cc (play true 9 sc o cc 6 [])) 5 "tls" /\
+  consistent true 9 sc o cc (play true 9 sc o cc 6 []).
+Proof.
+  cbv zeta. split; [|split].
+  - unfold fits. cbn. repeat split; try reflexivity; try discriminate.
+    + exists "plain", 1. repeat split; reflexivity.
+    + left; reflexivity.
+    + right; reflexivity.
+  - vm_compute. repeat split; reflexivity.
+  - vm_compute. reflexivity.
+Qed.
